@@ -63,7 +63,10 @@ class GeckoAsyncUdpProtocol(asyncio.DatagramProtocol):
             "GeckoAsyncUdpProtocol: connection lost from %s (%s)", self.transport, exc
         )
         self.transport = None
-        if self._on_connection_lost is not None:
+        if (
+            self._on_connection_lost is not None
+            and not self._on_connection_lost.done()
+        ):
             self._on_connection_lost.set_result(True)
 
     def error_received(self, exc) -> None:
@@ -76,6 +79,10 @@ class GeckoAsyncUdpProtocol(asyncio.DatagramProtocol):
         return self.transport is not None
 
     def disconnect(self) -> None:
+        if self.transport is not None:
+            # Forgetting the transport is not enough, the UDP endpoint must be
+            # closed or it stays open for the rest of the process lifetime
+            self.transport.close()
         self.connection_lost(None)
 
     @property
